@@ -8,8 +8,9 @@
    steps in any order; close() at any point, any number of times.  [quiescent s]: no thread of the server can take a step.
    [decomp]/[decode] are zlib and the request decoder: arbitrary functions.  [K] is the configuration: kind of server,
    authenticator or not, service class or instance, pool size, batch size, and the three facts tools/pygen reads off
-   rpyc/utils/server.py ([fx K]).  [close_reaches K] says whether close() reaches the connections being served: always for
-   the threaded and one-shot servers, by the generated facts for the thread pool and the forking server. *)
+   rpyc/utils/server.py ([fx K]).  [close_reaches K] says whether close() reaches the connections being served: for the
+   threaded and one-shot servers always, unless the authenticator replaces the socket and the worker does not re-register it
+   (fact worker_tracks_served); by the generated facts for the thread pool and the forking server. *)
 From V Require Import lib.Base model.Server proofs.ServerP proofs.ServerTie gen.Gen_server.
 
 Section C17.
@@ -23,12 +24,26 @@ Notation quiescent := (Server.quiescent decomp decode K).
 (* 1. close(), from any reachable state: the listener is closed and its queue reset, Server.clients is empty, and every
       connection that was being served (own worker, pool, inline authenticator) has had its socket shut down IN THAT STEP,
       so its client reads end-of-stream without any further step of the server *)
-Theorem c17_close_ends_clients : forall s, reach s -> close_reaches K = true ->
+Theorem c17_close_ends_clients : forall s, reach s -> close_reaches K = true -> Server.accept_rechecks_closed (fx K) = true ->
   let s' := server_close K s in
   step EClose s = Some s'
   /\ closed s' = true /\ active s' = false /\ lopen s' = false /\ clients s' = [] /\ backlog s' = []
   /\ forall c, serving (stg (conns s c)) = true -> shut (conns s' c) = true.
-Proof. intros s R H. split; [reflexivity|]. exact (close_ends_clients decomp decode K s R H). Qed.
+Proof. intros s R H _. split; [reflexivity|]. exact (close_ends_clients decomp decode K s R H). Qed.
+(* The hypothesis on accept: the transition system takes accept() as ONE step.  That is faithful on a tree whose accept looks at _closed
+   again after clients.add(sock): whichever way a concurrent close() interleaves, the socket is closed by one of the two
+   (c17_accept_close_race_harmless).  On a tree without the re-check a close() that runs between the `active` test and clients.add
+   misses the socket: c17_accept_close_race_refuted. *)
+Theorem c17_accept_close_race_harmless : forall s c, Server.accept_rechecks_closed (fx K) = true -> closed s = true ->
+  let s' := late_register K c s in
+  clients s' = clients s /\ closed s' = true /\ shut (conns s' c) = true /\ stg (conns s' c) = Finished
+  /\ forall x, x <> c -> conns s' x = conns s x.
+Proof. exact (late_register_harmless K). Qed.
+Theorem c17_accept_close_race_refuted : kind K = Threaded -> Server.accept_rechecks_closed (fx K) = false ->
+  let s0 := server_close K (with_backlog (w_connected K 1 AuthOk) []) in       (* the listener handed connection 1 out, then close() ran *)
+  let s := late_register K 1 s0 in
+  closed s = true /\ active s = false /\ clients s = [1] /\ stg (conns s 1) = Own /\ shut (conns s 1) = false.
+Proof. exact (accept_close_race_refuted K). Qed.
 
 (* 1'. each service's disconnect hook: never more than once; after close() no worker is blocked, and once the server's
        threads have nothing left to do nobody is being served and every connection that got a service instance has run
@@ -61,9 +76,9 @@ Theorem c17_no_residue : forall s, reach s -> active s = true -> quiescent s ->
         stg (conns s c) <> Pooled /\ mem c (fdmap s) = false /\ mem c (pollset s) = false /\ mem c (queue s) = false
         /\ cnt c (held s) = 0).
 Proof. exact (no_residue_running decomp decode K). Qed.
-Theorem c17_no_residue_closed : forall s, reach s -> closed s = true ->
+Theorem c17_no_residue_closed : forall s, reach s -> closed s = true -> Server.accept_rechecks_closed (fx K) = true ->
   clients s = [] /\ backlog s = [] /\ (pool_fix K = true -> fdmap s = [] /\ pollset s = []) /\ active s = false /\ lopen s = false.
-Proof. exact (no_residue_closed decomp decode K). Qed.
+Proof. intros s R Hc _. exact (no_residue_closed decomp decode K s R Hc). Qed.
 (* the pool's tables are consistent in every reachable running state: a registered descriptor is in exactly one of
    poll set / queue / a worker's hands, and nothing else is anywhere *)
 Theorem c17_pool_single_owner : forall s, reach s -> active s = true ->
@@ -77,6 +92,11 @@ Theorem c17_oneshot : forall s, kind K = OneShot -> reach s ->
   /\ (accepted s <> [] -> step EAccept s = None)
   /\ (forall c, In c (accepted s) -> stg (conns s c) = Finished -> closed s = true /\ active s = false /\ lopen s = false).
 Proof. exact (oneshot_serves_one decomp decode K). Qed.
+(* ... and it does accept that one connection: a fresh one-shot server with a connection queued takes it.  (A first client that then
+   fails authentication IS the one connection: the server closes after it, like after any other.) *)
+Theorem c17_oneshot_accepts_first : forall s, kind K = OneShot -> reach s -> accepted s = [] -> closed s = false -> backlog s <> [] ->
+  exists s', step EAccept s = Some s' /\ List.length (accepted s') = 1.
+Proof. exact (oneshot_accepts_first decomp decode K). Qed.
 
 (* Refutations: on a tree where close() does not reach the served connections, the history [connect; accept; close]
    ends in a closed, quiescent server whose client is still being served: socket never shut down, hook not run. *)
@@ -92,6 +112,15 @@ Theorem c17_close_ends_clients_refuted_forking : kind K = Forking -> Server.fork
     /\ stg (conns s 1) = Own /\ shut (conns s 1) = false /\ gone (conns s 1) = false
     /\ authd (conns s 1) = true /\ hooks (conns s 1) = 0.
 Proof. exact (close_refuted_forking decomp decode K). Qed.
+(* an authenticator that returns another socket object (TLS): unless the worker re-registers the socket it serves, Server.clients is left
+   with the dead original and close() reaches nothing *)
+Theorem c17_close_ends_clients_refuted_wrapping_auth : kind K = Threaded -> has_auth K = true -> auth_replaces K = true ->
+  Server.worker_tracks_served (fx K) = false ->
+  exists s, exec decomp decode K [EConnect 1 AuthOk; EAccept; EWork 1; EClose] (init K) = Some s
+    /\ closed s = true /\ quiescent s
+    /\ stg (conns s 1) = Own /\ shut (conns s 1) = false /\ gone (conns s 1) = false
+    /\ authd (conns s 1) = true /\ hooks (conns s 1) = 0.
+Proof. exact (close_refuted_wrapping_auth decomp decode K). Qed.
 Theorem c17_no_residue_refuted_pool_clients : kind K = Pool -> Server.pool_fail_discards (fx K) = false -> has_auth K = true ->
   exists s, exec decomp decode K [EConnect 1 AuthFail; EAccept; ELeave 1 false] (init K) = Some s
     /\ active s = true /\ quiescent s /\ gone (conns s 1) = true /\ mem 1 (clients s) = true.
@@ -109,11 +138,15 @@ Print Assumptions c17_oneshot.
 Print Assumptions c17_close_ends_clients_refuted_pool.
 Print Assumptions c17_close_ends_clients_refuted_forking.
 Print Assumptions c17_no_residue_refuted_pool_clients.
+Print Assumptions c17_accept_close_race_harmless.
+Print Assumptions c17_accept_close_race_refuted.
+Print Assumptions c17_oneshot_accepts_first.
+Print Assumptions c17_close_ends_clients_refuted_wrapping_auth.
 
 (* The model is the one the current source was translated to: control skeletons and facts (proofs/ServerTie.v). *)
 Theorem c17_program_is_current :
-  Gen_server.close_prog = Server.close_prog /\ Gen_server.accept_prog = Server.accept_prog
-  /\ Gen_server.worker_prog = Server.worker_prog /\ Gen_server.oneshot_prog = Server.oneshot_prog
+  Gen_server.close_prog = Server.close_prog /\ Gen_server.accept_prog = Server.accept_prog_of Gen_server.accept_survives_oserror Gen_server.accept_rechecks_closed
+  /\ Gen_server.worker_prog = Server.worker_prog_of Gen_server.worker_tracks_served /\ Gen_server.oneshot_prog = Server.oneshot_prog
   /\ Gen_server.threaded_prog = Server.threaded_prog /\ Gen_server.forking_prog = Server.forking_prog
   /\ (exists before, Gen_server.pool_close_prog = Server.pool_close_prog_of before Gen_server.pool_close_drops)
   /\ Gen_server.pool_accept_prog = Server.pool_accept_prog_of Gen_server.pool_fail_discards
@@ -128,7 +161,7 @@ Print Assumptions c17_program_is_current.
 
 (* what the theorems say about THIS tree: which servers' close() reaches the clients *)
 Definition this_tree (k : skind) : cfg :=
-  {| kind := k; fx := gen_facts; has_auth := false; class_svc := true; nworkers := 2; batch := 10 |}.
+  {| kind := k; fx := gen_facts; has_auth := false; class_svc := true; nworkers := 2; batch := 10; auth_replaces := false |}.
 Theorem c17_this_tree_threaded_oneshot : close_reaches (this_tree Threaded) = true /\ close_reaches (this_tree OneShot) = true.
 Proof. split; reflexivity. Qed.
 Print Assumptions c17_this_tree_threaded_oneshot.
@@ -137,8 +170,9 @@ Print Assumptions c17_this_tree_threaded_oneshot.
 Definition no_z (b : list byte) : option (list byte) := None.
 Definition no_d (b : list byte) : option req := None.
 Definition KT (k : skind) (fix_ : bool) : cfg :=
-  {| kind := k; fx := {| Server.pool_close_drops := fix_; Server.pool_fail_discards := fix_; Server.fork_parent_keeps := false; Server.pool_catches_base := false |};
-     has_auth := false; class_svc := true; nworkers := 2; batch := 10 |}.
+  {| kind := k; fx := {| Server.pool_close_drops := fix_; Server.pool_fail_discards := fix_; Server.fork_parent_keeps := false; Server.pool_catches_base := false;
+             Server.worker_tracks_served := false; Server.accept_survives_oserror := false; Server.accept_rechecks_closed := false |};
+     has_auth := false; class_svc := true; nworkers := 2; batch := 10; auth_replaces := false |}.
 Definition runx (K : cfg) (l : list event) : option st := exec no_z no_d K l (init K).
 
 (* threaded: two clients are served, one leaves, close(): the other one is shut down at once; after the workers' steps
